@@ -179,7 +179,21 @@ func (rc *SRespCodec) readReply(buf *codec.Buffer) (codec.Command, error) {
 	return codec.UNKNOWN, codec.ErrInvalidResp
 }
 
+// fragError is the error a fragment contributes to its request when redis did not
+// answer it with the expected type: the redis error itself, if that is what came back.
+func fragError(f *Frag) codec.Error {
+	if f.Type == codec.RspError {
+		return codec.Error(f.RspBody)
+	}
+	return codec.ErrUnKnown
+}
+
 func (rc *SRespCodec) MGet(f *Frag, sfd int) error {
+	if f.Type != codec.RspMultibulk {
+		f.Error = fragError(f)
+		f.Done = true
+		return nil
+	}
 	f.Rsp = rc.parseMGet(f)
 	f.Done = true
 
@@ -246,6 +260,11 @@ func (rc *SRespCodec) MSet(f *Frag, sfd int) error {
 }
 
 func (rc *SRespCodec) Del(f *Frag, sfd int) error {
+	if f.Type != codec.RspInteger {
+		f.Error = fragError(f)
+		f.Done = true
+		return nil
+	}
 	line := f.RspBody[1 : len(f.RspBody)-2]
 	n, _ := parseLen(line)
 	f.Peer.DelNum += n
